@@ -19,7 +19,7 @@ def field_values(width, orig, total_len):
     return sorted(vals)
 
 
-def mutations(seed, rng, budget, big_endian=False, dense_limit=1536, text=False, field_map=None, always=()):
+def mutations(seed, rng, budget, big_endian=False, dense_limit=1536, text=False, field_map=None, always=(), focus=()):
     """-> list of (offset, width_code, value, cls); deduplicated"""
     n = len(seed)
     out = []
@@ -45,12 +45,19 @@ def mutations(seed, rng, budget, big_endian=False, dense_limit=1536, text=False,
         offs = sorted(set(list(range(min(n, dense_limit))) + [rng.randrange(n) for _ in range(dense_limit // 2)] + [n - k for k in range(1, min(n, 33))]))
     if field_map:
         offs = sorted(set(offs) | {o for o, w, _ in field_map})
+    if focus:
+        offs = sorted(set(offs) | {o for a, b in focus for o in range(max(0, a), min(n, b))})
+    in_focus = lambda o: o < 256 or any(a <= o < b for a, b in focus)
     for o in offs:
         for w in (1, 2, 4):
             if o + w > n:
                 continue
             if w > 1 and n > 600 and o % 2 and not field_map:
                 continue
+            # zero / all-ones in an aligned field of a header region: the structurally most telling faults, never sampled away
+            if o % w == 0 and in_focus(o):
+                add(o, w, 0, "header-field%d" % w)
+                add(o, w, (1 << (8 * w)) - 1, "header-field%d" % w)
             orig_le = int.from_bytes(seed[o:o + w], "little")
             for v in field_values(w, orig_le, n):
                 add(o, w, v, "field%d" % w)
@@ -70,11 +77,27 @@ def mutations(seed, rng, budget, big_endian=False, dense_limit=1536, text=False,
             add(p, 0xFF, b | (1 << 8), "insert")
     for p in [0, n // 2, n]:
         add(p, 0xFF, 0x41 | (70000 << 8), "insert-long")
+    if text:
+        # token-level faults of textual formats: every field replaced by boundary numbers / removed
+        starts = [i for i in range(n) if seed[i] not in b"\t\r\n,=; " and (i == 0 or seed[i - 1] in b"\t\r\n,=; ")]
+        if len(starts) > 400:
+            starts = starts[:200] + rng.sample(starts[200:], 200)
+        for st in starts:
+            for v in (0, 1, 2 ** 31 - 1, 2 ** 31, 2 ** 32 - 1, 2 ** 32, 2 ** 63 - 1, 2 ** 63, 2 ** 64 - 1):
+                add(st, 0xFE, v, "token-number")
+            for v in (-1, -2 ** 31, -2 ** 63):
+                add(st, 0xFD, v & (2 ** 64 - 1), "token-number")
+            add(st, 0xFC, 0, "token-removed")
     if len(out) > budget:
-        keep = [m for m in out if m[3] == "truncate" and (m[0] < 512 or m[0] % 7 == 0)]
-        rest = [m for m in out if m not in set(keep)] if len(out) < 200000 else [m for m in out if not (m[3] == "truncate" and (m[0] < 512 or m[0] % 7 == 0))]
+        is_tr = lambda m: m[3] == "truncate" and (m[0] < 512 or m[0] % 7 == 0)
+        tr = [m for m in out if is_tr(m)][:budget // 3]
+        tok = [m for m in out if m[3].startswith("token-")]
+        rng.shuffle(tok)
+        hf = [m for m in out if m[3].startswith("header-field")]
+        tok = tok[:budget // 3] + hf
+        rest = [m for m in out if not is_tr(m) and not m[3].startswith("token-") and not m[3].startswith("header-field")]
         rng.shuffle(rest)
-        out = keep[:budget // 3] + rest[:budget - min(len(keep), budget // 3)]
+        out = tr + tok + rest[:max(0, budget - len(tr) - len(tok))]
     # structural faults that must not be lost to sampling (link cycles, ...)
     have = {(o, w, v) for o, w, v, _ in out}
     for (o, w, v, c) in always:
@@ -100,6 +123,13 @@ def apply_mutation(seed, off, w, v):
             if off + i < len(b):
                 b[off + i] = be[8 - k + i]
         return bytes(b)
+    if w in (0xFC, 0xFD, 0xFE):
+        at = min(off, len(b))
+        end = at
+        while end < len(b) and b[end] not in b"\t\r\n,=; ":
+            end += 1
+        text = b"" if w == 0xFC else str(v if w == 0xFE else (v - (1 << 64) if v >= (1 << 63) else v)).encode()
+        return bytes(b[:at]) + text + bytes(b[end:])
     if w == 0xFF:
         cnt = min(v >> 8, 1 << 20)
         at = min(off, len(b))
